@@ -400,6 +400,29 @@ def history_job(job):
                 check_wtml_vs_disk(out, part, "tile_fits-%s-override-after-deeper" % method, cfg)
             except Exception as e:
                 part.violation("tile_fits/raises:%s/%s" % (type(e).__name__, method), "%r: %r" % (cfg, e), cfg)
+        # every default: no output directory named (it is derived from the first input's name) and the tiling
+        # method left to be detected; fresh, then reused
+        if method == "TAN" or ninputs > 1:
+            cfg = {"method": method, "inputs": ninputs, "history": ["fresh-all-defaults", "reuse"], "defaults": True}
+            part.case(nontrivial=True)
+            transitions += 2
+            first = paths[0]
+            dflt = first[: first.rfind(".")] + "_tiled"
+            for sfx in ("", "_TOAST", "_HiPS"):
+                shutil.rmtree(dflt + sfx, ignore_errors=True)
+            try:
+                for hname in ("fresh", "reuse"):
+                    with quiet():
+                        od, bld = toasty.tile_fits(paths if len(paths) > 1 else paths[0], parallel=1)
+                    if not os.path.isdir(od) or not os.path.normpath(od).startswith(os.path.normpath(dflt)):
+                        part.violation("tile_fits/default-out_dir/%s" % method, "%r: returned out_dir %r, expected a directory named after the first input (%r...)" % (cfg, od, dflt), cfg)
+                        break
+                    compare_builder_with_disk(bld, od, part, "%s/defaults-%s" % (method, hname), cfg)
+                    check_wtml_vs_disk(od, part, "tile_fits-defaults-%s" % hname, cfg)
+            except Exception as e:
+                part.violation("tile_fits/raises:%s/defaults" % type(e).__name__, "%r: %r" % (cfg, e), cfg)
+            for sfx in ("", "_TOAST", "_HiPS"):
+                shutil.rmtree(dflt + sfx, ignore_errors=True)
         part.states += 5  # empty directory, produced, produced-and-reused, half-written, produced-from-another-input
         part.transitions += transitions
         part.executions += transitions
